@@ -617,3 +617,13 @@ func JoinErr(msgs []string) error {
 	}
 	return fmt.Errorf("%s", strings.Join(msgs, "\n"))
 }
+
+// Recover is deferred at the top of TestProp: a panic in harness code becomes
+// an inconclusive result (exit 2) instead of killing the process before the
+// statistics are flushed.
+func Recover(t *testing.T) {
+	if r := recover(); r != nil {
+		Inconclusive(fmt.Sprintf("harness panic: %v\n%s", r, truncate(string(debug.Stack()), 3000)))
+		t.Errorf("harness panic: %v", r)
+	}
+}
